@@ -5,6 +5,7 @@ import (
 	"bytes"
 	"context"
 	"crypto/rand"
+	"encoding/base64"
 	"encoding/hex"
 	"encoding/json"
 	"fmt"
@@ -84,7 +85,7 @@ func secret(n int) ss.Msg {
 }
 
 // refBuilt: frames built by the reference codec must be accepted by the real receiver.
-func refBuilt(c *core.Ctx, pre [][]byte, preBack [][]byte, msgs [][]byte, flags []byte) error {
+func refBuilt(c *core.Ctx, pre [][]byte, preBack [][]byte, msgs [][]byte, flags []byte, ivLead ...byte) error {
 	ca, cb, ab, ba := ss.Pair()
 	_ = ca
 	b := stream.NewStream(cb)
@@ -113,6 +114,7 @@ func refBuilt(c *core.Ctx, pre [][]byte, preBack [][]byte, msgs [][]byte, flags 
 	}
 	iv := make([]byte, 16)
 	rand.Read(iv)
+	copy(iv, ivLead) // optionally force the leading counter word (wrap-around of base+counter mod 2^32 is part of the format)
 	i := 0
 	for mi, m := range msgs {
 		fl := flags[mi]
@@ -292,6 +294,15 @@ func gen(c *core.Ctx) error {
 			if err := refBuilt(c, pre, back, msgs, flags); err != nil {
 				c.OracleFail("format", err.Error(), map[string]interface{}{"ref_built": true, "pre": pa, "back": pb})
 			}
+			// base IV whose leading word is about to wrap: nonce word = (base + counter) mod 2^32
+			for _, lead := range [][]byte{{0xff, 0xff, 0xff, 0xff}, {0xff, 0xff, 0xff, 0xfd}} {
+				c.OracleCheck()
+				c.Evaluated(1)
+				c.Count("reference-built-iv-word-wraps")
+				if err := refBuilt(c, pre, back, msgs, flags, lead...); err != nil {
+					c.OracleFail("format", "base IV leading word "+hex.EncodeToString(lead)+": "+err.Error(), map[string]interface{}{"ref_built": true, "pre": pa, "back": pb, "lead": lead})
+				}
+			}
 		}
 	}
 	return nil
@@ -308,7 +319,15 @@ func replay(raw json.RawMessage) error {
 		for i := 0; i < int(probe["back"].(float64)); i++ {
 			back = append(back, []byte(fmt.Sprintf("back-%d", i)))
 		}
-		return refBuilt(nil, pre, back, [][]byte{[]byte("first"), {}, core.Payload(3, 5000), []byte("p1"), []byte("p2-last")}, []byte{1, 1, 1, 0, 1})
+		var lead []byte
+		if l, ok := probe["lead"].([]interface{}); ok {
+			for _, x := range l {
+				lead = append(lead, byte(x.(float64)))
+			}
+		} else if ls, ok := probe["lead"].(string); ok { // []byte marshals as base64
+			lead, _ = base64.StdEncoding.DecodeString(ls)
+		}
+		return refBuilt(nil, pre, back, [][]byte{[]byte("first"), {}, core.Payload(3, 5000), []byte("p1"), []byte("p2-last")}, []byte{1, 1, 1, 0, 1}, lead...)
 	}
 	var d desc
 	if err := json.Unmarshal(raw, &d); err != nil {
